@@ -371,7 +371,7 @@ def specs(ctx):
 
     def path_block(workers_list, full):
         """the pre-existing state of the cache path x overwrite on / off x sequential / parallel x clean / faulting
-        creation (fault kind and position rotate; `full`: every fault kind), through from_dataframe mostly and
+        creation (fault kind and position rotate; `full`: four kinds per cell), through from_dataframe mostly and
         from_file / from_random in turn; the cache path alone in its directory or inside a directory of the user's
         own (nest).  What has to happen is decided by the listing alone: marker -> a cache (overwrite allowed);
         anything else that exists -> raise and keep; a link -> refused or followed."""
@@ -393,9 +393,10 @@ def specs(ctx):
                 for j, workers in enumerate(modes):
                     clean(state, ow, workers, rng.random() < 0.35, sources[si % len(sources)])
                     si += 1
-                    if full:
-                        for kind in faults:
-                            over_fault(kind, rng.choice(positions), workers, state, ow, nest=rng.random() < 0.35)
+                    if full:         # four of the six fault kinds per cell, rotating: every kind meets every state / mode
+                        for i in range(4):
+                            over_fault(faults[(k + i) % len(faults)], rng.choice(positions), workers, state, ow, nest=rng.random() < 0.35)
+                        k += 4
                     elif (j + q) % 2 == 0:
                         over_fault(faults[k % len(faults)], positions[pi % 3], workers, state, ow, nest=rng.random() < 0.35)
                         k += 1
